@@ -47,8 +47,8 @@ SPECIAL = [
     "007", "1.50", "1.0", "1e5", "1E5", "0", "-0", "00", "1,000", "0.1", ".5", "5.", "12345678901234567890", "1_000",
     "TRUE", "FALSE", "True", "False", "true", "None", "null", "NULL", "nan", "NaN", "inf", "N/A", "#N/A",
     "2020-01-31", "31/01/2020", "1/2/03", "09:30", "2020-01-31T09:30:00Z", "Jan 5",
-    " lead", "trail ", " both ", "  ", " ", "a  b", " ", "a b", " ", "a\u0085b", "​", "mid﻿bom",
-    "é", "Ünïcode", "日本語", "العربية", "עברית", "\U0001F600", "a\U0001F600b", "\U0001F468‍\U0001F469‍\U0001F467", "\U00010000", "\U0010FFFD", "é", "ß", "İi", "ǅ",
+    " lead", "trail ", " both ", "  ", " ", "a  b", "\u00a0", "a\u00a0b", "\u2028", "a\u0085b", "\u200b", "mid\ufeffbom",
+    "é", "Ünïcode", "日本語", "العربية", "עברית", "\U0001F600", "a\U0001F600b", "\U0001F468\u200d\U0001F469\u200d\U0001F467", "\U00010000", "\U0010FFFD", "é", "ß", "İi", "ǅ",
     "{{x}}", "{@y@}", "{", "}", "<b>&amp;</b>", "<", "&", "]]>", "<?xml?>", "&#13;", "_x000D_", "_x0041_", "%s", "%", "#", "\u007f",
 ]
 HEADER_POOL = [
@@ -1010,6 +1010,17 @@ def cli_worker(seeds):
 # --------------------------------------------------------------------------- run
 
 
+def safe(x):
+    """payloads must be writable as UTF-8 even when broken code produced lone surrogates"""
+    if isinstance(x, str):
+        return x.encode("utf-8", "backslashreplace").decode("utf-8")
+    if isinstance(x, dict):
+        return {safe(k) if isinstance(k, str) else k: safe(v) for k, v in x.items()}
+    if isinstance(x, (list, tuple)):
+        return [safe(v) for v in x]
+    return x
+
+
 def fold(ck: core.Check, results, kind: str):
     for r in results:
         ck.count(kind, r["n"])
@@ -1018,9 +1029,9 @@ def fold(ck: core.Check, results, kind: str):
         for k, v in r["strata"].items():
             ck.count(k, v)
         for t in r.get("ties", []):
-            ck.tie_break(t["what"], t)
+            ck.tie_break(t["what"], safe(t))
         for v in r["viol"]:
-            ck.violation(v["what"], v)
+            ck.violation(v["what"], safe(v))
         if r.get("sample") is not None and len(ck.samples) < 6:
             ck.samples.append(r["sample"])
         if "sheets" in r:
@@ -1056,7 +1067,7 @@ def run(ck: core.Check):
     import rpft.converters  # noqa: F401  (fail early → infra)
 
     quick = ck.tier == "quick"
-    n_read, n_comp, n_direct, n_cli = (800, 400, 6000, 8) if quick else (8000, 3000, 60000, 48)
+    n_read, n_comp, n_direct, n_cli = (500, 250, 4000, 6) if quick else (4000, 1500, 30000, 24)
 
     tmp = tempfile.mkdtemp(prefix="c14_")
     try:
